@@ -4,7 +4,10 @@ from symx.driver import run_check
 
 
 def jobs(tier):
-    return pipeline_jobs("c03", tier, relists=(None,), curated_relist=None, module="harness.parser")
+    js = pipeline_jobs("c03", tier, relists=(None,), curated_relist=None, module="harness.parser")
+    strata = [dict(name="S-shape/scrambled-labels", ns=[2, 3, 4], pin={4: 4}, params=dict(K_m=1, K_r=1, scramble=True))]
+    js += shape_strata("harness.parser", "c03", tier, quick=strata, thorough=strata, max_seconds=3000 if tier == "thorough" else 240)
+    return js
 
 
 def main(tier):
